@@ -79,13 +79,18 @@ class SpecError(Exception):
     pass
 
 
-def parse_file(path):
+def parse_file(path, rename=None):
     fns, ghosts = [], []
     cur = None
     curclause = None
     mode = None
     buf = []
-    lines = open(path, encoding='utf-8').read().split('\n')
+    text = open(path, encoding='utf-8').read()
+    # private fields that were merely renamed since the contracts were written (same struct, same type, one candidate):
+    # the ghost accessors follow the new name
+    for old_name, new_name in (rename or {}).items():
+        text = re.sub(r'(\bself|\(self\))\.%s\b' % re.escape(old_name), r'\1.' + new_name, text)
+    lines = text.split('\n')
 
     def flush():
         nonlocal buf, curclause, mode
@@ -155,12 +160,12 @@ def parse_file(path):
     return fns, ghosts
 
 
-def load_dir(d):
+def load_dir(d, rename=None):
     fns, ghosts = {}, []
     for name in sorted(os.listdir(d)):
         if not name.endswith('.vspec'):
             continue
-        f, g = parse_file(os.path.join(d, name))
+        f, g = parse_file(os.path.join(d, name), rename)
         for c in f:
             if c.key in fns:
                 raise SpecError('duplicate contract for ' + c.key)
